@@ -111,30 +111,82 @@ static void SR_ASSIGN_MOVE(struct scope_reference* dst, struct scope_reference* 
   sr_release(&param);                                   /* and destroyed at the end of the call */
 }
 
+#define SR_CTOR(p) ((p)->scope_ = NULL)   /* raii rule: storage of a local about to be constructed by sr_move / sr_copy */
+#define SR_DTOR(p) sr_release(p)
+#define SR_RVALUE(p) (G.init_move = 1, (p))
+/* mem-initialiser m(E) of a scope_reference member: move constructor if E is an rvalue (std::move), copy constructor otherwise */
+#define SR_INIT(dst, e) do { G.init_move = 0; struct scope_reference* vf_src = (e); if (G.init_move) sr_move((dst), vf_src); else sr_copy((dst), vf_src); } while (0)
+
+/* ---------------- scope_reference under contract (operands R1 = this / destination, R2 = other / rhs) ---------------- */
+#define SR_PRE (CONS && COUNT(SC.opState_) < AS_COUNT_MAX)
+void scope_reference_copy_ctor(struct scope_reference* self, const struct scope_reference* other)
+__CPROVER_requires(self == &R1 && other == &R2 && R1.scope_ == NULL && SR_PRE)
+__CPROVER_assigns(G.my_refs, G.acquired, SC.opState_, R1.scope_)
+__CPROVER_ensures(CONS) /* the copy owns its own unit or is empty */
+__CPROVER_ensures(R2.scope_ == __CPROVER_old(R2.scope_) && (R1.scope_ == NULL || R1.scope_ == R2.scope_)) /* same scope; the source is untouched */
+__CPROVER_ensures(G.acquired == __CPROVER_old(G.acquired) + (R1.scope_ != NULL ? 1 : 0)) /* a non-empty copy <=> exactly one try_record_start succeeded */
+__CPROVER_ensures(!OPEN(__CPROVER_old(SC.opState_)) ==> (R1.scope_ == NULL && G.acquired == __CPROVER_old(G.acquired))) /* C08: nothing is acquired after the close: the copy is empty */
+__CPROVER_ensures(__CPROVER_old(R2.scope_) == NULL ==> R1.scope_ == NULL)
+{ sr_copy(self, other); }
+
+void scope_reference_move_ctor(struct scope_reference* self, struct scope_reference* other)
+__CPROVER_requires(self == &R1 && other == &R2 && R1.scope_ == NULL && SR_PRE)
+__CPROVER_assigns(R1.scope_, R2.scope_)
+__CPROVER_ensures(CONS && R1.scope_ == __CPROVER_old(R2.scope_) && R2.scope_ == NULL) /* the unit moves: the source is emptied, nothing acquired or released */
+{ sr_move(self, other); }
+
+void scope_reference_dtor(struct scope_reference* self)
+__CPROVER_requires(self == &R1 && SR_PRE)
+__CPROVER_assigns(G.my_refs, G.released, SC.opState_, R1.scope_)
+__CPROVER_ensures(CONS && R1.scope_ == NULL)
+__CPROVER_ensures(G.released == __CPROVER_old(G.released) + (__CPROVER_old(R1.scope_) != NULL ? 1 : 0)) /* record_completion exactly once iff non-empty */
+{ sr_release(self); }
+
+void scope_reference_assign_move(struct scope_reference* self, struct scope_reference* rhs)   /* a = std::move(b) */
+__CPROVER_requires(self == &R1 && rhs == &R2 && SR_PRE)
+__CPROVER_assigns(G.my_refs, G.released, SC.opState_, R1.scope_, R2.scope_)
+__CPROVER_ensures(CONS && R1.scope_ == __CPROVER_old(R2.scope_) && R2.scope_ == NULL) /* lhs takes over the unit of rhs */
+__CPROVER_ensures(G.released == __CPROVER_old(G.released) + (__CPROVER_old(R1.scope_) != NULL ? 1 : 0)) /* the unit lhs held before is given back exactly once */
+{ SR_ASSIGN_MOVE(self, rhs); }
+
+void scope_reference_assign_copy(struct scope_reference* self, const struct scope_reference* rhs)   /* a = b */
+__CPROVER_requires(self == &R1 && rhs == &R2 && SR_PRE)
+__CPROVER_assigns(G.my_refs, G.acquired, G.released, SC.opState_, R1.scope_)
+__CPROVER_ensures(CONS && R2.scope_ == __CPROVER_old(R2.scope_) && (R1.scope_ == NULL || R1.scope_ == R2.scope_))
+__CPROVER_ensures(G.acquired == __CPROVER_old(G.acquired) + (R1.scope_ != NULL ? 1 : 0))
+__CPROVER_ensures(G.released == __CPROVER_old(G.released) + (__CPROVER_old(R1.scope_) != NULL ? 1 : 0))
+__CPROVER_ensures(!OPEN(__CPROVER_old(SC.opState_)) ==> R1.scope_ == NULL) /* C08: nothing acquired after the close */
+{
+  struct scope_reference param; SR_CTOR(&param); sr_copy(&param, rhs);   /* by-value parameter copy-constructed from the argument */
+  scope_reference_swap_assign(self, &param);
+  sr_release(&param);                                                     /* and destroyed at the end of the call */
+}
+
+/* ---------------- the nest sender's special members ---------------- */
 void nest_sender_ctor(struct nest_sender* self, int sender, struct scope_reference* scope)
-__CPROVER_requires(self == &A && !G.alive_a && A.scope_.scope_ == &SC)
+__CPROVER_requires(self == &A && !G.alive_a && A.scope_.scope_ == &SC && CONS)
 __CPROVER_assigns(G)
-__CPROVER_ensures(INV(&A) && G.alive_a && G.constructs == __CPROVER_old(G.constructs) + 1 && !G.bad)
+__CPROVER_ensures(INV(&A) && G.alive_a && G.constructs == __CPROVER_old(G.constructs) + 1 && !G.bad && CONS)
 /*@BODY ctor*/
 
 void nest_sender_copy_ctor(struct nest_sender* self, const struct nest_sender* t)
-__CPROVER_requires(self == &A && t == &B && !G.alive_a && INV(&B))
+__CPROVER_requires(self == &A && t == &B && !G.alive_a && INV(&B) && CONS)
 __CPROVER_assigns(G)
-__CPROVER_ensures(INV(&A) && INV(&B) && G.alive_b == __CPROVER_old(G.alive_b) && !G.bad) /* the copy holds a reference iff it holds a sender; the source is untouched */
+__CPROVER_ensures(INV(&A) && INV(&B) && G.alive_b == __CPROVER_old(G.alive_b) && !G.bad && CONS) /* the copy holds a reference iff it holds a sender; the source is untouched */
 /*@BODY copy_ctor*/
 
 void nest_sender_move_ctor(struct nest_sender* self, struct nest_sender* t)
-__CPROVER_requires(self == &A && t == &B && !G.alive_a && G.alive_b == (A.scope_.scope_ != NULL) && (A.scope_.scope_ == NULL || A.scope_.scope_ == &SC) && B.scope_.scope_ == NULL)
+__CPROVER_requires(self == &A && t == &B && !G.alive_a && G.alive_b == (A.scope_.scope_ != NULL) && (A.scope_.scope_ == NULL || A.scope_.scope_ == &SC) && B.scope_.scope_ == NULL && CONS)
 __CPROVER_assigns(G)
-__CPROVER_ensures(INV(&A) && INV(&B) && !G.alive_b && B.scope_.scope_ == NULL && !G.bad) /* the reference and the sender both move; the source is left empty */
+__CPROVER_ensures(INV(&A) && INV(&B) && !G.alive_b && B.scope_.scope_ == NULL && !G.bad && CONS) /* the reference and the sender both move; the source is left empty */
 /*@BODY move_ctor*/
 
 void nest_sender_dtor_body(struct nest_sender* self)
 /*@BODY dtor*/
 void nest_sender_dtor(struct nest_sender* self)
-__CPROVER_requires(self == &A && INV(&A))
-__CPROVER_assigns(G, A.scope_.scope_)
-__CPROVER_ensures(!G.alive_a && A.scope_.scope_ == NULL && !G.bad)
+__CPROVER_requires(self == &A && INV(&A) && SR_PRE)
+__CPROVER_assigns(G, A.scope_.scope_, SC.opState_)
+__CPROVER_ensures(!G.alive_a && A.scope_.scope_ == NULL && !G.bad && CONS)
 __CPROVER_ensures(G.destructs == __CPROVER_old(G.destructs) + (__CPROVER_old(G.alive_a) ? 1 : 0)) /* a live wrapped sender is destroyed exactly once */
 __CPROVER_ensures(G.released == __CPROVER_old(G.released) + (__CPROVER_old(A.scope_.scope_) != NULL ? 1 : 0)) /* a held scope reference is released exactly once: the scope's join is not blocked forever */
 {
@@ -145,27 +197,206 @@ __CPROVER_ensures(G.released == __CPROVER_old(G.released) + (__CPROVER_old(A.sco
 void nest_sender_assign_body(struct nest_sender* self, struct nest_sender* rhs)
 /*@BODY assign*/
 void nest_sender_assign(struct nest_sender* self, struct nest_sender* rhs)
-__CPROVER_requires(self == &A && rhs == &B && INV(&A) && INV(&B))
-__CPROVER_assigns(G, A.scope_.scope_, B.scope_.scope_)
-__CPROVER_ensures(INV(&A) && !G.bad) /* after assignment lhs again holds a sender iff it holds a reference */
+__CPROVER_requires(self == &A && rhs == &B && INV(&A) && INV(&B) && SR_PRE)
+__CPROVER_assigns(G, A.scope_.scope_, B.scope_.scope_, SC.opState_)
+__CPROVER_ensures(INV(&A) && !G.bad && CONS) /* after assignment lhs again holds a sender iff it holds a reference */
 __CPROVER_ensures(!G.alive_b && B.scope_.scope_ == NULL) /* the by-value parameter was emptied and destroyed */
 __CPROVER_ensures(G.alive_a == __CPROVER_old(G.alive_b) && (A.scope_.scope_ != NULL) == (__CPROVER_old(B.scope_.scope_) != NULL)) /* lhs takes over exactly what rhs held */
 __CPROVER_ensures(G.destructs >= __CPROVER_old(G.destructs) + (__CPROVER_old(G.alive_a) ? 1 : 0)) /* the sender lhs held before (a dropped future's handle) is destroyed */
 __CPROVER_ensures(G.released == __CPROVER_old(G.released) + (__CPROVER_old(A.scope_.scope_) != NULL ? 1 : 0)) /* and its scope reference is released exactly once */
+__CPROVER_ensures(G.acquired == __CPROVER_old(G.acquired)) /* moving never acquires */
 {
   nest_sender_assign_body(self, rhs);
   nest_sender_dtor_body(rhs); sr_release(&rhs->scope_);   /* the by-value parameter is destroyed at the end of the call */
 }
 
+/* ---------------- the nest operation's constructors ---------------- */
+/* receiver_(E): move / copy construction of the downstream receiver (may throw when not noexcept) */
+static _Bool EV_receiver_construct(struct nest_op* self, int r) {
+  VF_P(self == &OP && !G.rcv_alive && G.rcv_constructs == 0, "the receiver is constructed once, into the operation being built");
+  if (G.may_throw && VF_nondet_bool()) { G.threw = 1; return 1; }
+  G.rcv_alive = 1; G.rcv_constructs++;
+  return 0;
+}
+static void EV_receiver_destruct(struct nest_op* self) {
+  VF_P(self == &OP && G.rcv_alive, "a constructed receiver is destroyed exactly once");
+  G.rcv_alive = 0; G.rcv_destructs++;
+}
+/* activate_union_member_with(op_, [&] { return connect((Sender2&&)s, nest_receiver{this}); }): may throw; strong guarantee */
+static _Bool EV_connect_inner(struct nest_op* self, struct nest_sender* s) {
+  VF_CANARY("connect of the wrapped sender reachable");
+  VF_P(self == &OP && !G.inner_alive && G.connects == 0, "the wrapped sender is connected at most once, into the operation being built");
+  VF_P(s == &B && G.alive_b, "the wrapped sender is connected while it is alive (before the nest sender gives it up)");
+  VF_P(OP.scope_.scope_ == &SC, "C08: an inner operation is created only in a nest operation that already holds its scope reference (admitted before the close)");
+  VF_P(G.rcv_alive, "the receiver the inner operation completes into is constructed before connect");
+  VF_P(!G.threw, "nothing is connected on the exceptional path");
+  if (G.may_throw && VF_nondet_bool()) { G.threw = 1; return 1; }   /* connect throws: nothing constructed in op_ */
+  G.inner_alive = 1; G.connects++;
+  return 0;
+}
+static void nest_op_ctor_body(struct nest_op* self, struct nest_sender* s, int r, struct scope_reference* scope)
+/*@BODY nop_ctor*/
+/* the three-argument constructor: mem-initialisers (text extracted) + body (extracted) + destruction of the already constructed
+ * members, in reverse order, when an exception leaves the constructor (written out: C++ semantics) */
+#define NOP_PRE (self == &OP && OP.scope_.scope_ == NULL && !G.inner_alive && !G.rcv_alive && G.connects == 0 && G.rcv_constructs == 0 && G.rcv_destructs == 0 && !G.threw)
+#define NOP_OK (!G.threw && G.inner_alive && G.rcv_alive && G.connects == 1 && G.rcv_constructs == 1 && G.rcv_destructs == 0)
+#define NOP_THREW (G.threw && !G.inner_alive && !G.rcv_alive && G.connects == 0 && G.rcv_constructs == G.rcv_destructs && OP.scope_.scope_ == NULL)
+void nest_op_ctor(struct nest_op* self, struct nest_sender* s, int r, struct scope_reference* scope)
+__CPROVER_requires(NOP_PRE && s == &B && G.alive_b && scope == &R2 && R2.scope_ == &SC && SR_PRE)
+__CPROVER_assigns(G, OP, R2.scope_, SC.opState_)
+__CPROVER_ensures(CONS && R2.scope_ == NULL) /* the reference is taken out of the argument on every path */
+__CPROVER_ensures(G.threw ? NOP_THREW : (NOP_OK && OP.scope_.scope_ == &SC)) /* a constructed nest operation holds the reference and one connected inner operation */
+__CPROVER_ensures(G.acquired == __CPROVER_old(G.acquired)) /* construction never acquires */
+__CPROVER_ensures(G.released == __CPROVER_old(G.released) + (G.threw ? 1 : 0) && G.my_refs == __CPROVER_old(G.my_refs) - (G.threw ? 1 : 0)) /* C08 liveness: when the receiver's constructor or connect throws, the unit is given back exactly once (nothing stays acquired); otherwise it is kept */
+__CPROVER_ensures(G.alive_b && G.destructs == __CPROVER_old(G.destructs)) /* the constructor does not destroy the wrapped sender (its owner does) */
+{
+  SR_INIT(&self->scope_, /*@EXPR nop_ctor_scope_init*/);
+  if (EV_receiver_construct(self, /*@EXPR nop_ctor_rcv_init*/)) { sr_release(&self->scope_); return; }
+  nest_op_ctor_body(self, s, r, scope);
+  if (G.threw) { EV_receiver_destruct(self); sr_release(&self->scope_); }
+}
+static void nest_op_ctor_rv_body(struct nest_op* self, int r)
+/*@BODY nop_ctor_rv*/
+static void nest_op_ctor_lv_body(struct nest_op* self, int r)
+/*@BODY nop_ctor_lv*/
+/* the one-argument constructors (Receiver&& / const Receiver&): scope_ default-initialised, no inner operation */
+void nest_op_ctor_empty(struct nest_op* self, int r)
+__CPROVER_requires(NOP_PRE && SR_PRE)
+__CPROVER_assigns(G, OP)
+__CPROVER_ensures(CONS && OP.scope_.scope_ == NULL && !G.inner_alive && G.connects == 0) /* C08: an operation built without reference has no inner operation (its start completes with done: group scope_v1) */
+__CPROVER_ensures(G.threw ? (!G.rcv_alive && G.rcv_constructs == 0) : (G.rcv_alive && G.rcv_constructs == 1))
+__CPROVER_ensures(G.acquired == __CPROVER_old(G.acquired) && G.released == __CPROVER_old(G.released))
+{
+  sr_default(&self->scope_);
+  if (VF_nondet_bool()) { if (EV_receiver_construct(self, /*@EXPR nop_ctor_rv_init*/)) return; nest_op_ctor_rv_body(self, r); }
+  else { if (EV_receiver_construct(self, /*@EXPR nop_ctor_lv_init*/)) return; nest_op_ctor_lv_body(self, r); }
+}
+
+/* ---------------- connect on a nest sender ---------------- */
+#define OP_INV ((OP.scope_.scope_ != NULL) == G.inner_alive && (G.threw ? !G.rcv_alive : G.rcv_alive))   /* scope_v1 (nest_op start / destructor) relies on it */
+#define CONNECT_PRE (s == &B && ret == &OP && INV(&B) && A.scope_.scope_ == NULL && !G.alive_a && R1.scope_ == NULL && R2.scope_ == NULL && SR_PRE && !G.bad \
+                     && OP.scope_.scope_ == NULL && !G.inner_alive && !G.rcv_alive && G.connects == 0 && G.rcv_constructs == 0 && G.rcv_destructs == 0 && !G.threw)
+/* connect(std::move(sender), r): the reference and the wrapped sender move into the operation */
+void nest_sender_connect_move(struct nest_sender* s, int r, struct nest_op* ret)
+__CPROVER_requires(CONNECT_PRE)
+__CPROVER_assigns(G, OP, B.scope_.scope_, SC.opState_)
+__CPROVER_ensures(CONS && OP_INV && !G.bad)
+__CPROVER_ensures(INV(&B) && B.scope_.scope_ == NULL && !G.alive_b) /* the source is emptied: its destructor has nothing left to do */
+__CPROVER_ensures(G.destructs == __CPROVER_old(G.destructs) + (__CPROVER_old(G.alive_b) ? 1 : 0)) /* C02: the wrapped sender is destroyed exactly once, on the normal and on the exceptional path */
+__CPROVER_ensures(G.acquired == __CPROVER_old(G.acquired)) /* a move transfers the unit: nothing new is acquired */
+__CPROVER_ensures((!G.threw && __CPROVER_old(B.scope_.scope_) != NULL) ? (OP.scope_.scope_ == &SC && G.connects == 1 && G.released == __CPROVER_old(G.released)) : (OP.scope_.scope_ == NULL && G.connects == 0)) /* admitted sender -> operation that holds the unit and one inner operation; empty sender -> empty operation (done) */
+__CPROVER_ensures(G.released == __CPROVER_old(G.released) + ((G.threw && __CPROVER_old(B.scope_.scope_) != NULL) ? 1 : 0)) /* C08 liveness: a throwing connect gives the unit back exactly once */
+__CPROVER_ensures(G.my_refs == __CPROVER_old(G.my_refs) + G.acquired - __CPROVER_old(G.acquired) - (G.released - __CPROVER_old(G.released))) /* units acquired - released == change of live references */
+/*@BODY connect_move*/
+
+/* connect(sender, r) on an lvalue: the copy acquires its own unit (try_record_start on the same scope) or yields an empty operation */
+void nest_sender_connect_copy(const struct nest_sender* s, int r, struct nest_op* ret)
+__CPROVER_requires(CONNECT_PRE)
+__CPROVER_assigns(G, OP, SC.opState_)
+__CPROVER_ensures(CONS && OP_INV && !G.bad)
+__CPROVER_ensures(INV(&B) && B.scope_.scope_ == __CPROVER_old(B.scope_.scope_) && G.alive_b == __CPROVER_old(G.alive_b) && G.destructs == __CPROVER_old(G.destructs)) /* the source keeps its reference and its sender */
+__CPROVER_ensures(G.acquired <= __CPROVER_old(G.acquired) + 1 && (G.acquired == __CPROVER_old(G.acquired) + 1) == (G.connects == 1 || (G.threw && G.released == __CPROVER_old(G.released) + 1))) /* exactly one unit per operation that got as far as connecting */
+__CPROVER_ensures(!G.threw ==> ((OP.scope_.scope_ == &SC) == (G.acquired == __CPROVER_old(G.acquired) + 1) && G.released == __CPROVER_old(G.released))) /* the operation holds the new unit, or is empty */
+__CPROVER_ensures(G.threw ==> (OP.scope_.scope_ == NULL && G.released - __CPROVER_old(G.released) == G.acquired - __CPROVER_old(G.acquired))) /* C08 liveness: on a throwing connect nothing stays acquired */
+__CPROVER_ensures((!OPEN(__CPROVER_old(SC.opState_)) || __CPROVER_old(B.scope_.scope_) == NULL) ==> (G.acquired == __CPROVER_old(G.acquired) && OP.scope_.scope_ == NULL && G.connects == 0)) /* C08: nothing is acquired after the close; the work is never connected (completes with done) */
+__CPROVER_ensures(G.my_refs == __CPROVER_old(G.my_refs) + G.acquired - __CPROVER_old(G.acquired) - (G.released - __CPROVER_old(G.released)))
+/*@BODY connect_copy*/
+
+/* ---------------- v2 debug_async_scope: forwards to its own v2 async_scope, nesting a debug wrapper of the sender ---------------- */
+enum { FWD_none = 0, FWD_join = 11, FWD_joined = 12, FWD_join_started = 13, FWD_use_count = 14 };
+enum { H_NESTED = 77, H_WRAPPED = 1000 };
+static int EV_debug_wrap(int sender, int* ops) {   /* debug_scope_sender<Sender>{sender, &ops_} */
+  VF_P(ops == &DS.ops_ && G.wraps == 0, "the sender is wrapped once, registered with this debug scope's own operation list");
+  G.wraps++; G.wrapped_sender = sender;
+  return H_WRAPPED + sender;
+}
+static int EV_v2_nest(struct async_scope* scope, int sender) {   /* v2 async_scope::nest (group scope_v1, unit v2_nest) */
+  VF_P(scope == &DS.scope_ && G.nests == 0, "C08: the work is nested once, in the scope this debug scope joins");
+  VF_P(G.wraps == 1 && sender == H_WRAPPED + G.wrapped_sender, "what is nested is the debug wrapper of the caller's sender");
+  G.nests++;
+  return H_NESTED;
+}
+static int vf_fwd(struct async_scope* scope, int kind) { VF_P(scope == &DS.scope_ && G.forwards == 0, "forwarded once, to the wrapped v2 scope"); G.forwards++; G.fwd_kind = kind; return VF_nondet_int(); }
+static int EV_v2_join(struct async_scope* scope) { return vf_fwd(scope, FWD_join); }
+static _Bool EV_v2_joined(struct async_scope* scope) { return vf_fwd(scope, FWD_joined) != 0; }
+static _Bool EV_v2_join_started(struct async_scope* scope) { return vf_fwd(scope, FWD_join_started) != 0; }
+static size_t EV_v2_use_count(struct async_scope* scope) { return (size_t)vf_fwd(scope, FWD_use_count); }
+#define DBG_PRE (self == &DS && G.nests == 0 && G.wraps == 0 && G.forwards == 0 && G.fwd_kind == FWD_none)
+int debug_scope_nest(struct debug_scope* self, int sender)
+__CPROVER_requires(DBG_PRE && sender >= 0 && sender < 100)
+__CPROVER_assigns(G.nests, G.wraps, G.wrapped_sender)
+__CPROVER_ensures(G.nests == 1 && G.wraps == 1 && G.wrapped_sender == sender && __CPROVER_return_value == H_NESTED) /* nest(s) == scope_.nest(debug_wrapper(s)): counted by the scope that join() waits on */
+/*@BODY dbg_nest*/
+int debug_scope_join(struct debug_scope* self)
+__CPROVER_requires(DBG_PRE)
+__CPROVER_assigns(G.forwards, G.fwd_kind)
+__CPROVER_ensures(G.forwards == 1 && G.fwd_kind == FWD_join)
+/*@BODY dbg_join*/
+_Bool debug_scope_joined(struct debug_scope* self)
+__CPROVER_requires(DBG_PRE)
+__CPROVER_assigns(G.forwards, G.fwd_kind)
+__CPROVER_ensures(G.forwards == 1 && G.fwd_kind == FWD_joined)
+/*@BODY dbg_joined*/
+_Bool debug_scope_join_started(struct debug_scope* self)
+__CPROVER_requires(DBG_PRE)
+__CPROVER_assigns(G.forwards, G.fwd_kind)
+__CPROVER_ensures(G.forwards == 1 && G.fwd_kind == FWD_join_started)
+/*@BODY dbg_join_started*/
+size_t debug_scope_use_count(struct debug_scope* self)
+__CPROVER_requires(DBG_PRE)
+__CPROVER_assigns(G.forwards, G.fwd_kind)
+__CPROVER_ensures(G.forwards == 1 && G.fwd_kind == FWD_use_count)
+/*@BODY dbg_use_count*/
+
 /* ---------------- harnesses ---------------- */
 static void h_init(void) {
-  G.alive_a = 0; G.alive_b = 0; G.constructs = 0; G.destructs = 0; G.acquired = 0; G.released = 0; G.copy_fails = VF_nondet_bool(); G.bad = 0;
-  A.scope_.scope_ = NULL; B.scope_.scope_ = NULL;
+  struct vf_ghost z = {0}; G = z; G.may_throw = VF_nondet_bool();
+  A.scope_.scope_ = NULL; B.scope_.scope_ = NULL; OP.scope_.scope_ = NULL; R1.scope_ = NULL; R2.scope_ = NULL;
+  OP.receiver_ = VF_nondet_int(); OP.op_ = VF_nondet_int();
+  SC.opState_ = VF_nondet_size_t();
 }
-static void fill(struct nest_sender* p) { if (VF_nondet_bool()) { p->scope_.scope_ = &SC; ALIVE(p) = 1; } else { p->scope_.scope_ = NULL; ALIVE(p) = 0; } }
-void h_ctor(void) { h_init(); struct scope_reference s; s.scope_ = &SC; struct scope_reference* scope = &s; sr_move(&A.scope_, /*@EXPR ctor_init*/); s.scope_ = &SC; nest_sender_ctor(&A, 0, &s); VF_CANARY("after ctor"); }
-void h_copy_ctor(void) { h_init(); fill(&B); struct nest_sender* t = &B; sr_copy(&A.scope_, /*@EXPR copy_init*/); nest_sender_copy_ctor(&A, &B); VF_CANARY("after copy ctor"); if (G.alive_a) { VF_CANARY("copy of a live nest sender in an open scope"); } else if (G.alive_b) { VF_CANARY("copy of a live nest sender in a closed scope"); } }
-void h_move_ctor(void) { h_init(); fill(&B); struct nest_sender* t = &B; sr_move(&A.scope_, /*@EXPR move_init*/); nest_sender_move_ctor(&A, &B); VF_CANARY("after move ctor"); }
-void h_dtor(void) { h_init(); fill(&A); nest_sender_dtor(&A); VF_CANARY("after dtor"); }
-void h_assign(void) { h_init(); fill(&A); fill(&B); _Bool a0 = G.alive_a, b0 = G.alive_b; nest_sender_assign(&A, &B); VF_CANARY("after operator="); if (a0 && !b0) { VF_CANARY("assigning an empty nest sender over a live one"); } if (a0 && b0) { VF_CANARY("assigning a live nest sender over a live one"); } }
+/* window construction: the scope word carries at least the units this party holds */
+static void h_ready(void) { __CPROVER_assume(COUNT(SC.opState_) >= G.my_refs && COUNT(SC.opState_) < AS_COUNT_MAX); }
+static void fill_ref(struct scope_reference* r) { if (VF_nondet_bool()) { r->scope_ = &SC; G.my_refs++; } else { r->scope_ = NULL; } }
+static void fill(struct nest_sender* p) { fill_ref(&p->scope_); ALIVE(p) = (p->scope_.scope_ != NULL); }
+void h_ctor(void) { h_init(); struct scope_reference s; s.scope_ = &SC; G.my_refs = 1; h_ready(); struct scope_reference* scope = &s; sr_move(&A.scope_, /*@EXPR ctor_init*/); nest_sender_ctor(&A, 0, &s); VF_CANARY("after ctor"); }
+void h_copy_ctor(void) { h_init(); fill(&B); h_ready(); struct nest_sender* t = &B; sr_copy(&A.scope_, /*@EXPR copy_init*/); nest_sender_copy_ctor(&A, &B); VF_CANARY("after copy ctor"); if (G.alive_a) { VF_CANARY("copy of a live nest sender in an open scope"); } else if (G.alive_b) { VF_CANARY("copy of a live nest sender in a closed scope"); } }
+void h_move_ctor(void) { h_init(); fill(&B); h_ready(); struct nest_sender* t = &B; sr_move(&A.scope_, /*@EXPR move_init*/); nest_sender_move_ctor(&A, &B); VF_CANARY("after move ctor"); }
+void h_dtor(void) { h_init(); fill(&A); h_ready(); nest_sender_dtor(&A); VF_CANARY("after dtor"); }
+void h_assign(void) { h_init(); fill(&A); fill(&B); h_ready(); _Bool a0 = G.alive_a, b0 = G.alive_b; nest_sender_assign(&A, &B); VF_CANARY("after operator="); if (a0 && !b0) { VF_CANARY("assigning an empty nest sender over a live one"); } if (a0 && b0) { VF_CANARY("assigning a live nest sender over a live one"); } }
+void h_sr_copy_ctor(void) { h_init(); fill_ref(&R2); h_ready(); _Bool open0 = OPEN(SC.opState_); scope_reference_copy_ctor(&R1, &R2); VF_CANARY("after scope_reference copy"); if (R1.scope_ != NULL) { VF_CANARY("copy acquires a unit while the scope is open"); } else if (R2.scope_ != NULL && open0) { VF_CANARY("copy refused: the scope was closed concurrently"); } }
+void h_sr_move_ctor(void) { h_init(); fill_ref(&R2); h_ready(); scope_reference_move_ctor(&R1, &R2); VF_CANARY("after scope_reference move"); }
+void h_sr_dtor(void) { h_init(); fill_ref(&R1); h_ready(); scope_reference_dtor(&R1); VF_CANARY("after ~scope_reference"); if (G.released) { VF_CANARY("a held unit is given back"); } }
+void h_sr_assign_move(void) { h_init(); fill_ref(&R1); fill_ref(&R2); h_ready(); _Bool l0 = R1.scope_ != NULL, r0 = R2.scope_ != NULL; scope_reference_assign_move(&R1, &R2); VF_CANARY("after scope_reference move assignment"); if (l0 && r0) { VF_CANARY("move-assigning a held reference over a held one"); } }
+void h_sr_assign_copy(void) { h_init(); fill_ref(&R1); fill_ref(&R2); h_ready(); _Bool l0 = R1.scope_ != NULL; scope_reference_assign_copy(&R1, &R2); VF_CANARY("after scope_reference copy assignment"); if (l0 && R1.scope_ != NULL) { VF_CANARY("copy-assigning over a held reference in an open scope"); } if (l0 && R2.scope_ != NULL && R1.scope_ == NULL) { VF_CANARY("copy-assigning after the close empties the destination"); } }
+void h_nop_ctor(void) { h_init(); B.scope_.scope_ = NULL; G.alive_b = 1; R2.scope_ = &SC; G.my_refs = 1; h_ready(); nest_op_ctor(&OP, &B, VF_nondet_int(), &R2); VF_CANARY("after nest operation constructor"); if (G.threw) { VF_CANARY("nest operation constructor throws"); if (G.rcv_constructs) { VF_CANARY("connect of the wrapped sender throws"); } } }
+void h_nop_ctor_empty(void) { h_init(); h_ready(); nest_op_ctor_empty(&OP, VF_nondet_int()); VF_CANARY("after one-argument nest operation constructor"); }
+void h_connect_move(void) { h_init(); fill(&B); h_ready(); _Bool b0 = G.alive_b; nest_sender_connect_move(&B, VF_nondet_int(), &OP); VF_CANARY("after connect(rvalue nest sender)"); if (b0 && !G.threw) { VF_CANARY("rvalue connect of an admitted sender"); } if (b0 && G.threw) { VF_CANARY("rvalue connect throws"); } if (!b0) { VF_CANARY("rvalue connect of an empty sender"); } }
+void h_connect_copy(void) { h_init(); fill(&B); h_ready(); _Bool b0 = G.alive_b; nest_sender_connect_copy(&B, VF_nondet_int(), &OP); VF_CANARY("after connect(lvalue nest sender)"); if (G.connects) { VF_CANARY("lvalue connect acquires its own unit"); } if (b0 && G.acquired && G.threw) { VF_CANARY("lvalue connect throws after acquiring"); } if (b0 && !G.acquired) { VF_CANARY("lvalue connect after the close yields an empty operation"); } }
+static void h_dbg(void) { h_init(); DS.ops_ = VF_nondet_int(); }
+void h_dbg_nest(void) { h_dbg(); int sender = VF_nondet_int(); __CPROVER_assume(sender >= 0 && sender < 100); debug_scope_nest(&DS, sender); VF_CANARY("after debug_async_scope::nest"); }
+void h_dbg_join(void) { h_dbg(); debug_scope_join(&DS); VF_CANARY("after debug_async_scope::join"); }
+void h_dbg_joined(void) { h_dbg(); debug_scope_joined(&DS); VF_CANARY("after debug_async_scope::joined"); }
+void h_dbg_join_started(void) { h_dbg(); debug_scope_join_started(&DS); VF_CANARY("after debug_async_scope::join_started"); }
+void h_dbg_use_count(void) { h_dbg(); debug_scope_use_count(&DS); VF_CANARY("after debug_async_scope::use_count"); }
 void lemma_nest_sender(void) { h_init(); VF_P(INV(&A) && INV(&B), "lemma: a default-constructed nest sender is empty and satisfies the invariant"); VF_CANARY("lemma reachable"); }
+/* M4 lemma over the contracts: a unit taken by connect is given back exactly once by whichever owner ends up with it.
+ * Summaries: connect (this group): the operation holds the unit iff it was built with an inner operation; the later owners
+ * (scope_v1 nest_op destructor / scope_v2 _nest_receiver::complete) release exactly once iff the operation's reference is non-empty;
+ * the source nest sender's destructor (unit dtor) releases exactly once iff it still holds one. */
+void lemma_conservation(void) {
+  size_t refs0 = VF_nondet_size_t(); __CPROVER_assume(refs0 <= 1);          /* the nest sender holds a unit or not */
+  _Bool is_move = VF_nondet_bool(), threw = VF_nondet_bool(), open = VF_nondet_bool();
+  /* connect's contract, summarised */
+  size_t acquired = (!is_move && refs0 == 1 && open) ? 1 : 0;
+  _Bool op_holds = !threw && (is_move ? refs0 == 1 : acquired == 1);
+  size_t released_by_connect = (threw && (is_move ? refs0 == 1 : acquired == 1)) ? 1 : 0;
+  size_t sender_holds = is_move ? 0 : refs0;
+  size_t refs1 = refs0 + acquired - released_by_connect;
+  VF_P(refs1 == sender_holds + (op_holds ? 1 : 0), "lemma: after connect the units held equal the live references (sender + operation)");
+  /* later: the operation completes or is destroyed, the sender is destroyed */
+  size_t refs2 = refs1 - (op_holds ? 1 : 0) - sender_holds;
+  VF_P(refs2 == 0, "lemma: once the operation and the sender are gone every unit taken on the scope word has been given back (join is not blocked)");
+  VF_P(!open ==> acquired == 0, "lemma: nothing is acquired after the close");
+  VF_CANARY("lemma_conservation reachable");
+}
